@@ -301,6 +301,13 @@ pub fn scripted() -> Vec<Vec<Op>> {
         // delayed original overtakes the catch-up response; restart drops the buffer; failed catch-up
         vec![CoStart(0, 1), CoRep(0, 1), CoCount(0, 1), CoStart(0, 2), Rw(0, 2, 1), Gaps, Rw(0, 1, 0), Sync(0, 0, 0, 1), Restart,
              CoStart(0, 3), Rw(0, 3, 2), Rw(0, 3, 2), Gaps, SyncFail, Gaps],
+        // two coordinators on divergent views send DIFFERENT transactions for the same sequence while the
+        // replica is behind and buffering: the second must be refused (conflict), never merged into the first
+        vec![CoStart(0, 1), CoRep(0, 1), CoCount(0, 1), CoStart(0, 2), CoStart(1, 3), Rw(0, 2, 1), Rw(1, 3, 1), Rw(0, 2, 1), Gaps,
+             Sync(0, 0, 0, 1), CoCount(0, 2), CoCount(1, 3)],
+        // the same with the conflicting write arriving first and a duplicate of it afterwards
+        vec![CoStart(0, 1), CoRep(0, 1), CoCount(0, 1), CoStart(0, 2), CoStart(1, 3), Rw(1, 3, 1), Rw(0, 2, 1), Rw(1, 3, 1), Gaps,
+             Sync(0, 0, 0, 1), CoCount(1, 3), CoCount(0, 2)],
     ]
 }
 
@@ -443,6 +450,26 @@ pub async fn run_coordinator_boundaries(ctx: &mut Ctx, w: &mut World) {
             ctx.emit(&op, &format!("{line} | log=[{}]", show_log(&log)));
         }
         ctx.stat("boundary_rf1");
+    }
+    // the coordinator acknowledges only after its confirmation count is stored: when every attempt
+    // to store it fails, set_confirmations_with_retry must fail too (and leave the count unchanged);
+    // with the right arguments it stores the count
+    {
+        let pid = w.next_partition; w.next_partition += 1;
+        let mut txs = Txs::new(pid);
+        let tx = txs.get(1); let txid = tx.transaction_id();
+        if let Ok(app) = w.db.append_events(tx).await {
+            let wrong = uuid::Uuid::from_u128(txid.as_u128() ^ (1 << 40));
+            let r1 = sierradb_cluster::write::transaction::set_confirmations_with_retry(&w.db, pid, app.offsets.clone(), wrong, 2).await;
+            let c1 = world::read_log(&w.db, &txs).await.first().map(|x| x.2).unwrap_or(255);
+            if r1.is_ok() || c1 != 0 {
+                ctx.oracle_fail("C11:confirmation-retry", &format!("storing the confirmation count failed on every attempt (wrong transaction id) but set_confirmations_with_retry returned {} and the stored count is {c1}: the write would be acknowledged without its count", if r1.is_ok() { "Ok" } else { "Err" }), &["c10 setconf".to_string()]);
+            }
+            let r2 = sierradb_cluster::write::transaction::set_confirmations_with_retry(&w.db, pid, app.offsets.clone(), txid, 2).await;
+            let c2 = world::read_log(&w.db, &txs).await.first().map(|x| x.2).unwrap_or(255);
+            if r2.is_err() || c2 != 2 { ctx.oracle_fail("C11:confirmation-store", &format!("set_confirmations_with_retry with the right arguments returned {:?}, stored count {c2}", r2.map_err(|e| e.to_string())), &["c10 setconf".to_string()]); }
+            ctx.stat("boundary_confirmation_retry");
+        }
     }
     // the coordinator's quorum arithmetic for EVERY replication factor: `run` with no reachable
     // replica holds exactly one copy (its own), so it may acknowledge iff rf/2+1 <= 1, and the
